@@ -8,6 +8,7 @@ pub mod c05;
 pub mod c08;
 pub mod c09;
 pub mod c10;
+pub mod c11;
 pub mod c12;
 pub mod c13;
 pub mod c06;
@@ -28,6 +29,7 @@ pub fn dispatch(ctx: &mut Ctx) {
         "C08" => c08::run(ctx),
         "C09" => c09::run(ctx),
         "C10" => c10::run(ctx),
+        "C11" => c11::run(ctx),
         "C12" => c12::run(ctx),
         "C13" => c13::run(ctx),
         "C06" => c06::run(ctx),
